@@ -167,6 +167,7 @@ class Recorder:
         self.cancelled = set()    # call request ids whose result the caller cancelled while pending
         self.handlers = {}        # hid -> fn
         self.subs_objs = {}       # (sub, hid) -> Subscription
+        self.gb_obs, self.cur_api = False, None
         self.regs_objs = {}       # reg -> Registration
         self.pending_endpoints = {}   # invocation req -> (deferred, details)
         self.beh = "value"
@@ -238,6 +239,8 @@ class Recorder:
                     self.bad("faithful", "unsubscribe names %r not %r" % (msg.subscription, exp["sub"]))
                 elif k == "unregister" and msg.registration != exp["reg"]:
                     self.bad("faithful", "unregister names %r not %r" % (msg.registration, exp["reg"]))
+        elif k == "goodbye" and self.cur_api == "leave":
+            self.gb_obs = True
         elif k == "cancel":
             rec["req"] = msg.request
         elif k in ("yield", "error"):
@@ -280,7 +283,10 @@ class Recorder:
         known = {id(so): hid for (sid_, hid), lst_ in self.subs_objs.items() for so in lst_}
         subs = [[sid, [getattr(sub.handler.fn, "hid", None) or known.get(id(sub), -1) for sub in lst]] for sid, lst in sorted(s._subscriptions.items())]
         invs = [[rid, bool(self.inv_rp.get(rid, False))] for rid in sorted(s._invocations)]
-        return dict(tr=s._transport is not None, joined=s._session_id is not None, gb=bool(s._goodbye_sent),
+        # "this side has said GOODBYE": the session's own flag where it has one by that name, else what was observed (a GOODBYE
+        # handed to the transport from inside leave() since the transport was opened)
+        gb = bool(getattr(s, "_goodbye_sent", self.gb_obs))
+        return dict(tr=s.transport is not None, joined=s.session_id is not None, gb=gb,
                     nreq=self.last_req(), pend=pend, subs=subs, regs=sorted(s._registrations), invs=invs)
 
     def last_req(self):
@@ -520,6 +526,7 @@ def scenario(rng, profile):
     inv_ids = []
 
     def do_open():
+        R.gb_obs = False
         s.onOpen(R.tr)
         R.step(dict(ev="open"))
 
@@ -540,11 +547,13 @@ def scenario(rng, profile):
             kw.setdefault("bad", "")
         R.sync_m = None
         R.tr.sync_next = (profile in ("c04", "c06") and name in ("call", "publish", "subscribe", "unsubscribe", "register", "unregister")
-                          and s._session_id is not None and rng.random() < 0.12)
+                          and s.session_id is not None and rng.random() < 0.12)
+        R.cur_api = name
         try:
             fn()
         except Exception as e:  # noqa
             R.re["exc"] = type(e).__name__
+        R.cur_api = None
         R.tr.sync_next = False
         kw["sync"] = R.sync_m or {"t": "none"}
         R.sync_m = None
@@ -686,7 +695,7 @@ def scenario(rng, profile):
                 return
             (sub_id, hid), subl = rng.choice(active)
             sub = rng.choice([x for x in subl if x.active])
-            pos = s._subscriptions[sub_id].index(sub) + 1 if s._transport is not None else 1
+            pos = s._subscriptions[sub_id].index(sub) + 1 if s.transport is not None else 1
             R.expect_sent = dict(sub=sub_id)
 
             def f():
@@ -780,7 +789,7 @@ def scenario(rng, profile):
             pubid = rng.randint(1000, 9999)
             R.event_expect = (args, kwargs, pubid)
             p_, q_ = 0, 0
-            cur = list(s._subscriptions.get(sub, [])) if s._session_id is not None else []
+            cur = list(s._subscriptions.get(sub, [])) if s.session_id is not None else []
             if profile == "c11" and cur and rng.random() < 0.35:
                 p_ = rng.randint(1, len(cur))
                 q_ = rng.randint(1, len(cur))
@@ -830,7 +839,7 @@ def scenario(rng, profile):
             return
         rq = rng.choice(sorted(R.pending_endpoints))
         d, details = R.pending_endpoints[rq]
-        if rng.random() < 0.4 and s._transport is not None:
+        if rng.random() < 0.4 and s.transport is not None:
             # progress
             try:
                 if details.progress is not None:
@@ -879,10 +888,10 @@ def scenario(rng, profile):
     elif pre < 0.3:
         R.user["challenge"] = rng.choice(["ok", "ok", "raise"])
         rx(message.Challenge("wampcra", {"challenge": "x"}), dict(t="challenge"))
-    if s._transport is not None and s._session_id is None and rng.random() < 0.9:
+    if s.transport is not None and s.session_id is None and rng.random() < 0.9:
         R.user["welcome"] = rng.choice(["ok"] * 6 + ["deny", "raise"])
         rx(message.Welcome(1234, ROLES), dict(t="welcome"))
-    if s._session_id is not None and profile == "c10":
+    if s.session_id is not None and profile == "c10":
         # a registration to invoke
         R.expect_sent = dict(uri="com.myapp.proc9")
 
@@ -909,7 +918,7 @@ def scenario(rng, profile):
         rid0 = R.last_req()
         rx(message.Registered(rid0, 21), dict(t="registered", req=rid0, reg=21))
     dec = rng.random()
-    if s._session_id is not None and (profile == "c11" and dec < 0.35 or profile == "c04" and dec < 0.2):
+    if s.session_id is not None and (profile == "c11" and dec < 0.35 or profile == "c04" and dec < 0.2):
         # decorated object: two methods, topic1 (details) -> handler id 2, topic2 (no options) -> handler id 3
         lst = Listener(R)
         Listener.a_first.hid = 2
@@ -941,7 +950,7 @@ def scenario(rng, profile):
         if len(rids) == 3:
             for i, rid in enumerate(rids):
                 rx(message.Subscribed(rid, 11 + i), dict(t="subscribed", req=rid, sub=11 + i, unsub=False))
-    elif s._session_id is not None and profile == "c11":
+    elif s.session_id is not None and profile == "c11":
         for hid in rng.sample([1, 2, 3], rng.randint(1, 3)):
             R.expect_sent = dict(uri="com.myapp.topic1")
 
@@ -959,7 +968,7 @@ def scenario(rng, profile):
             api("subscribe", f1, h=hid)
             rid1 = R.last_req()
             rx(message.Subscribed(rid1, 11), dict(t="subscribed", req=rid1, sub=11, unsub=False))
-    if s._session_id is not None and profile in ("c04", "c10") and rng.random() < 0.15:
+    if s.session_id is not None and profile in ("c04", "c10") and rng.random() < 0.15:
         # a router that answers a second REGISTER with a registration id it has already handed out: a protocol violation, and
         # the request stays pending like every other (it fails when the session ends; a correct REGISTERED still completes it)
         rnd_api(force="register")
@@ -972,7 +981,7 @@ def scenario(rng, profile):
             rx(message.Registered(r2, 21), dict(t="registered", req=r2, reg=21))
             if rng.random() < 0.5:
                 rx(message.Registered(r2, 22), dict(t="registered", req=r2, reg=22))
-    if s._session_id is not None and profile == "c11" and rng.random() < 0.3:
+    if s.session_id is not None and profile == "c11" and rng.random() < 0.3:
         # a handler gets attached to a subscription id between the UNSUBSCRIBE for that id and its UNSUBSCRIBED: the router
         # has dropped the subscription, so UNSUBSCRIBED ends it for every handler, and a later EVENT for the id is a violation
         rnd_api(force="subscribe")
